@@ -493,6 +493,12 @@ func c06(r *core.Run) {
 					}) {
 						o.Fail(p.InstrPos(s), "the retry delay does not come from nextDelay")
 					}
+					// the task stored back on the wheel must carry the advanced delay, or the chain never progresses
+					if !core.DependsOn(args[len(args)-2], func(v ssa.Value) bool {
+						return core.IsResult(v, 0, core.CallTo("lib/store/cache.nextDelay"))
+					}) {
+						o.Fail(p.InstrPos(s), "the re-scheduled task does not carry the advanced delay (the chain would repeat the same step and never give up)")
+					}
 				}
 			}
 		}
